@@ -95,7 +95,9 @@ def run(tier, work):
                 jobs.append({"files": {"t.rb": text}, "args": ["t.rb", m, "--row=%d" % row],
                              "eof_budget": RC.EOF_BUDGET, "tag": tag})
     if tier == "quick" and len(jobs) > 26000:
-        jobs = rng.sample(jobs, 26000)
+        keep = [j for j in jobs if j["tag"] in ("cycle", "recv", "value")]      # the hand-picked editor situations always run
+        rest = [j for j in jobs if j["tag"] not in ("cycle", "recv", "value")]
+        jobs = keep + rng.sample(rest, max(0, 26000 - len(keep)))
     for i, j in enumerate(jobs):
         j["idx"] = i
     for i in rng.sample(range(len(jobs)), min(1000 if tier == "quick" else 8000, len(jobs))):
